@@ -626,9 +626,11 @@ def build():
     def canary(ctx):
         w = World(ctx)
         gen = ctx.call(w.hub.recv, w.me, True)
+        w.interfere = lambda: None
+        pre0 = w.snap()
         end = drive(ctx, w, gen, lambda pre, y: None)
         if end[0] == "ret":
-            ctx.check("recv leaves its queue unchanged (false)", w.qk.rel(end[2]["qk"], "same"))
+            ctx.check("recv leaves its queue unchanged (false)", w.qk.rel(pre0["qk"], "same"))
     R.canary("recv-does-not-pop", kind="seq", samples=10)(canary)
 
     def empty_check(make):
